@@ -311,6 +311,19 @@ impl Interp {
         }
     }
 
+    /// Fault engine: after an operation inside a live write transaction reported a storage
+    /// failure, the application ignores it and commits anyway. Returns None when no transaction
+    /// is live, otherwise whether commit() returned Ok.
+    pub fn commit_live_txn_after_failure(&mut self) -> Option<Result<(), String>> {
+        if self.wt.is_none() {
+            return None;
+        }
+        self.drop_txn_objects();
+        let wt = *self.wt.take().unwrap();
+        self.working = None;
+        Some(wt.commit().map_err(|e| e.to_string()))
+    }
+
     /// Orderly teardown: everything but the database
     pub fn drop_all_but_db(&mut self) {
         self.drop_txn_objects();
